@@ -480,7 +480,10 @@ pub fn campaign(run: &mut crate::runner::Run, target: &str, runs: u64) {
             .arg(&corpus)
             .arg(format!("-runs={runs}"))
             .arg(format!("-seed={seed}"))
-            .args(["-len_control=0", "-max_len=2048", "-timeout=120", "-print_final_stats=1", "-rss_limit_mb=12288"])
+            // no RSS limit: libFuzzer reads the PEAK rss (getrusage), and a process started with posix_spawn inherits the
+            // peak of its parent - after the big-memory parts of this check every instance would "exceed" any limit at
+            // once (seen: 8 x "out-of-memory (used: 12503Mb)" on a machine with 62 GB). Single allocations stay limited.
+            .args(["-len_control=0", "-max_len=2048", "-timeout=120", "-print_final_stats=1", "-rss_limit_mb=0", "-malloc_limit_mb=8192"])
             .arg(format!("-artifact_prefix={}/", dir.display()))
             .env("RSV_VERIF_DIR", verif_dir())
             .env("ASAN_OPTIONS", "quarantine_size_mb=32:malloc_context_size=2:detect_leaks=0")
@@ -512,7 +515,8 @@ pub fn campaign(run: &mut crate::runner::Run, target: &str, runs: u64) {
             continue;
         }
         if err.contains("libFuzzer: timeout") || err.contains("libFuzzer: out-of-memory") {
-            notes.push(format!("instance {inst}: libFuzzer timeout/oom (inconclusive)"));
+            let why = err.lines().find(|l| l.contains("ERROR: libFuzzer")).unwrap_or("").trim().to_string();
+            notes.push(format!("instance {inst}: libFuzzer timeout/oom (inconclusive): {why}"));
             run.inconclusive.push(format!("libFuzzer:{target}: instance {inst} hit the per-input time or memory limit"));
             continue;
         }
